@@ -29,6 +29,19 @@ def gen_case(ctx: Ctx, kind=None):
                 precision=rng.choice(["float64", "float64", "float32"]), norm=rng.choice(["values", "amplitude", "intensity"]))
 
 
+def nyquist_halved(x, axes_sizes, grown_even_axes, first_axis):
+    """independent prediction of finding F16: every Fourier coefficient of the real array `x` that sits on the Nyquist index of an
+    even, upsampled axis comes back with half its value (one-sided copy + `.real` + crop); everything else is exact"""
+    ax = tuple(range(first_axis, first_axis + len(axes_sizes)))
+    X = np.fft.fftn(np.asarray(x, dtype=np.float64), axes=ax)
+    w = np.ones(axes_sizes)
+    for a in grown_even_axes:
+        idx = [slice(None)] * len(axes_sizes)
+        idx[a] = axes_sizes[a] // 2
+        w[tuple(idx)] = 0.5
+    return np.fft.ifftn(X * w, axes=ax).real, X, w
+
+
 class C15(Property):
     id = "C15"
     props_file = "AbtemVerif/Props/C15.lean"
@@ -148,42 +161,66 @@ class C15(Property):
                 y = fft_interpolate(x.copy(), up_shape, normalization=case["norm"])
                 back = fft_interpolate(np.asarray(y).copy(), shape, normalization=case["norm"])
                 err = rel(back, x)
-                even_grown = [s for s, u in zip(shape, up_shape) if s % 2 == 0 and u > s]
+                even_axes = [i for i, (s, u) in enumerate(zip(shape, up_shape)) if s % 2 == 0 and u > s]
+                even_grown = [shape[i] for i in even_axes]
                 if kind == "roundtrip-real" and not np.isrealobj(np.asarray(y)):
                     ctx.violation("real-input-interpolation-returns-complex", case, dict(dtype=str(np.asarray(y).dtype)))
                 if err > tol:
                     if kind == "roundtrip":
                         ctx.violation("complex-up-down-roundtrip-not-identity", case, dict(rel_err=err, up_shape=list(up_shape)))
-                    elif even_grown:
-                        ctx.violation("real-array-even-axis-up-down-roundtrip-not-identity", case, dict(rel_err=err, up_shape=list(up_shape), even_axes=even_grown))
+                    elif even_axes:
+                        # known finding F16 only if the result is EXACTLY the predicted Nyquist-halved array
+                        pred, _, _ = nyquist_halved(x, shape, even_axes, len(ens))
+                        dev = rel(back, pred)
+                        if dev <= tol * 10:
+                            ctx.violation("real-array-even-axis-up-down-roundtrip-not-identity", case,
+                                          dict(rel_err=err, up_shape=list(up_shape), even_axes=even_grown, dev_from_predicted_nyquist_halving=dev))
+                        else:
+                            ctx.violation("real-array-roundtrip-differs-beyond-predicted-nyquist-halving", case,
+                                          dict(rel_err=err, dev_from_prediction=dev, up_shape=list(up_shape), even_axes=even_grown))
                     else:
                         ctx.violation("real-array-odd-axes-up-down-roundtrip-not-identity", case, dict(rel_err=err, up_shape=list(up_shape)))
                 ctx.count(f"{kind}:{len(shape)}d:{'even-grown' if even_grown else 'odd-or-same'}:{'ok' if err <= tol else 'differs'}")
             elif kind == "mean":
-                x = (rng.normal(size=ens + shape) + (1j * rng.normal(size=ens + shape) if rng.random() < 0.5 else 0)).astype(cdt if True else rdt)
+                is_real = rng.random() < 0.5
+                x = rng.normal(size=ens + shape).astype(rdt) if is_real else (rng.normal(size=ens + shape) + 1j * rng.normal(size=ens + shape)).astype(cdt)
                 y = np.asarray(fft_interpolate(x.copy(), big, normalization="values"))
+                if is_real and not np.isrealobj(y):
+                    ctx.violation("real-input-interpolation-returns-complex", case, dict(dtype=str(y.dtype)))
                 ax = tuple(range(len(ens), len(ens) + len(shape)))
                 d = float(np.abs(y.mean(axis=ax) - x.mean(axis=ax)).max() / max(float(np.abs(x.mean(axis=ax)).max()), 1e-12))
                 if d > tol * 10:
                     ctx.violation("values-normalization-changes-the-mean", case, dict(rel_dev=d))
-                ctx.count(f"mean:{len(shape)}d")
+                ctx.count(f"mean:{len(shape)}d:{'real' if is_real else 'complex'}")
             elif kind == "intensity":
                 ax = tuple(range(len(ens), len(ens) + len(shape)))
                 up_shape = tuple(max(s, b) for s, b in zip(shape, big))
-                x = (rng.normal(size=ens + shape) + 1j * rng.normal(size=ens + shape)).astype(cdt)
+                is_real = rng.random() < 0.4
+                x = rng.normal(size=ens + shape).astype(rdt) if is_real else (rng.normal(size=ens + shape) + 1j * rng.normal(size=ens + shape)).astype(cdt)
                 y = np.asarray(fft_interpolate(x.copy(), up_shape, normalization="intensity"), dtype=np.complex128)
                 tx = (np.abs(np.fft.fftn(np.asarray(x, dtype=np.complex128), axes=ax)) ** 2).sum(axis=ax)
                 ty = (np.abs(np.fft.fftn(y, axes=ax)) ** 2).sum(axis=ax)
                 d = float(np.abs(ty / tx - 1).max())
+                even_axes = [i for i, (s, u) in enumerate(zip(shape, up_shape)) if s % 2 == 0 and u > s]
                 if d > tol * 10:
-                    ctx.violation("intensity-normalization-changes-reciprocal-norm-on-upsampling", case, dict(rel_dev=d))
+                    if is_real and even_axes:
+                        # same defect as F16 seen through the norm: `.real` splits every Nyquist coefficient into two halves,
+                        # |X|² -> 2·|X/2|²; known only if the loss is exactly that
+                        _, X, w = nyquist_halved(x, shape, even_axes, len(ens))
+                        pred = (np.abs(X) ** 2 * np.where(w < 1, 0.5, 1.0)).sum(axis=ax)
+                        dev = float(np.abs(ty / pred - 1).max())
+                        key = ("real-array-even-axis-intensity-upsampling-halves-nyquist-power" if dev <= tol * 10
+                               else "real-array-intensity-upsampling-differs-beyond-predicted-nyquist-loss")
+                        ctx.violation(key, case, dict(rel_dev=d, dev_from_prediction=dev, even_axes=[shape[i] for i in even_axes]))
+                    else:
+                        ctx.violation("intensity-normalization-changes-reciprocal-norm-on-upsampling", case, dict(rel_dev=d, real=is_real))
                 # downsampling the (band-limited) upsampled array back keeps it too
                 z = np.asarray(fft_interpolate(y.astype(cdt), shape, normalization="intensity"), dtype=np.complex128)
                 tz = (np.abs(np.fft.fftn(z, axes=ax)) ** 2).sum(axis=ax)
                 d2 = float(np.abs(tz / ty - 1).max())
-                if d2 > tol * 10:
+                if d2 > tol * 10 and not (is_real and even_axes):  # (real + even axis: the symmetric Nyquist pair is cropped one-sidedly, F16)
                     ctx.violation("intensity-normalization-changes-reciprocal-norm-of-bandlimited-array-on-downsampling", case, dict(rel_dev=d2))
-                ctx.count(f"intensity:{len(shape)}d")
+                ctx.count(f"intensity:{len(shape)}d:{'real' if is_real else 'complex'}")
             elif kind in ("roll", "shift-add"):
                 g = tuple((list(shape) + [5, 5])[:2])
                 x = (rng.normal(size=ens + g) + 1j * rng.normal(size=ens + g)).astype(cdt)
